@@ -55,7 +55,9 @@ def check_variants(ctx, doc, letters, containers, n):
             else:
                 nr = len(inp["seqs"])
                 ncol = len(inp["seqs2"]) if inp["two"] else nr
-                if tuple(r.shape) != (nr, ncol):
+                if not hasattr(r, "shape"):
+                    bad = f"returned a {type(r).__name__} ({r!r:.80}) instead of a matrix of shape {(nr, ncol)}"
+                elif tuple(r.shape) != (nr, ncol):
                     bad = f"shape {tuple(r.shape)} want {(nr, ncol)}"
                 else:
                     if out == "coo_matrix":
